@@ -69,4 +69,5 @@ fn despawn_tracker_reports_once()
     drop(t);
     assert!(rx.try_recv() == Ok(e), "C08: the drop reports the watched entity");
     assert!(rx.try_recv().is_err(), "C08: exactly once");
+    kani::cover!(true, "end of harness reached");
 }
